@@ -61,7 +61,7 @@ PROP = dict(
          "tour-order objectives first): after every step every cached value per route (with its schedule), per solution, and the fitness "
          "is compared with strip-and-recompute, and no route may be handed over stale. "
          "Non-trivial: >= 2 insertions observed and a tour with >= 2 activities; a history with >= 10 steps. "
-         "Distinct = SHA-256 of the canonical case input",
+         "Distinct = SHA-256 of the canonical case input One deterministic scenario (group_refresh, finding S61): the group tag of a tour must read the same before and after a refresh of the tour's state.",
     modelled="update_route_schedule (update_schedules, update_states: latest arrival + future waiting, update_statistics), capacity "
              "recalculate_states (current/max-past/max-future), accept_insertion / accept_route_state / accept_solution_state stale protocol "
              "(abstractly), fitness as a function of caches",
